@@ -60,11 +60,19 @@ def go_build(cmd, tags="verif"):
     """Builds /verif/harness/cmd/<cmd> against /repo's current working tree (replace directive)."""
     if cmd in _built:
         return _built[cmd]
-    shutil.copy(os.path.join(REPO, "go.sum"), os.path.join(HARNESS, "go.sum"))
     outdir = scratch("verif-bin-")
     out = os.path.join(outdir, cmd)
+    hdir = HARNESS
+    if os.path.realpath(REPO) != "/repo":
+        # machinery self-test against a scratch copy of the repository (VERIF_REPO): private copy of the
+        # harness module with the replace directive pointed there
+        hdir = os.path.join(outdir, "harness")
+        shutil.copytree(HARNESS, hdir, ignore=shutil.ignore_patterns("bin"))
+        gm = open(os.path.join(hdir, "go.mod")).read().replace("=> /repo", "=> " + os.path.realpath(REPO))
+        open(os.path.join(hdir, "go.mod"), "w").write(gm)
+    shutil.copy(os.path.join(REPO, "go.sum"), os.path.join(hdir, "go.sum"))
     t0 = time.time()
-    p = subprocess.run(["go", "build", "-tags", tags, "-o", out, "./cmd/" + cmd], cwd=HARNESS,
+    p = subprocess.run(["go", "build", "-tags", tags, "-o", out, "./cmd/" + cmd], cwd=hdir,
                        env=goenv(), capture_output=True, text=True)
     if p.returncode != 0:
         raise Inconclusive("go build of harness %s failed against the current tree:\n%s" % (cmd, p.stderr[-4000:]))
